@@ -40,7 +40,7 @@ ASSUMPTIONS = [
     "numba, numpy, moptipy are trusted",
     "seeded search: a clean batch is evidence, not proof",
 ]
-FAULT_KINDS = ["warm_start:full", "warm_start:wrapper", "via:for_fes",
+FAULT_KINDS = ["algorithm_object_reused", "warm_start:full", "warm_start:wrapper", "via:for_fes",
                "via:from_starting_point",
                "cancel:before_first_move", "cancel:mid_run", "draw:i0",
                "draw:jmax", "draw:equal", "draw:full_reversal",
@@ -203,7 +203,19 @@ def generate(rng: random.Random, batch: dict) -> dict:
             rng.shuffle(wt)
             doc["warm"] = {"tour": wt,
                            "y_copy": rng.choice(["full", "wrapper"])}
+        if rng.random() < 0.25:
+            more = []
+            for _ in range(rng.choice([1, 2, 3])):
+                p2 = list(range(n))
+                rng.shuffle(p2)
+                d2, _ = gen_draws(rng, n, rng.choice([1, 3, 10, 30]))
+                more.append({"start_perm": p2, "draws": d2,
+                             "stop_after_polls": len(d2) // 2 + 1})
+            doc["more_runs"] = more
     else:
+        if rng.random() < 0.25:
+            doc["more_runs"] = [{"seed": rng.getrandbits(48)}
+                                for _ in range(rng.choice([1, 2]))]
         doc.update({"seed": rng.getrandbits(48),
                     "max_fes": rng.choice([1, 2, 3, 10, 50,
                                            batch["max_moves"]]),
@@ -296,6 +308,36 @@ class _GuardAlloc:
 
 
 def execute(doc: dict) -> dict:
+    """One scenario = one or more runs on ONE algorithm object (history)."""
+    runs = [doc] + [{**{k: v for k, v in doc.items() if k != "more_runs"},
+                     **r} for r in doc.get("more_runs", [])]
+    shared: dict = {}
+    total = None
+    for ri, rdoc in enumerate(runs):
+        res = _execute_single(rdoc, shared)
+        if total is None:
+            total = res
+        else:
+            total["events"].append(["run", ri])
+            total["events"].extend(res["events"])
+            for key in ("faults", "probes"):
+                for k, v in res[key].items():
+                    total[key][k] = total[key].get(k, 0) + v
+            total["states"].extend(res["states"])
+            total["ops"] += res["ops"]
+            total["sim_time"] += res["sim_time"]
+            total["nontrivial"] = total["nontrivial"] or res["nontrivial"]
+            if res["violation"] is not None:
+                total["violation"] = res["violation"]
+                total["violation"]["run"] = ri
+        if total["violation"] is not None:
+            break
+    if len(runs) > 1:
+        core.bump(total["faults"], "algorithm_object_reused", len(runs) - 1)
+    return total
+
+
+def _execute_single(doc: dict, shared: dict) -> dict:
     import numpy as np
     from moptipy.spaces.permutations import Permutations
     import moptipyapps.tsp.fea1p1_revn as fea_mod
@@ -303,7 +345,9 @@ def execute(doc: dict) -> dict:
     from moptipyapps.tsp.fea1p1_revn import TSPFEA1p1revn
 
     res = core.new_result()
-    inst, matrix = _build(doc)
+    if "inst" not in shared:
+        shared["inst"], shared["matrix"] = _build(doc)
+    inst, matrix = shared["inst"], shared["matrix"]
     n = len(matrix)
     algo_name = doc["algo"]
     is_fea = algo_name == "fea"
@@ -323,7 +367,9 @@ def execute(doc: dict) -> dict:
         return res
     if is_fea and ub > 3_000_000:
         raise AssertionError("FEA scenario with huge upper bound: harness bug")
-    algo = (TSPFEA1p1revn if is_fea else TSPEA1p1revn)(inst)
+    if "algo" not in shared:
+        shared["algo"] = (TSPFEA1p1revn if is_fea else TSPEA1p1revn)(inst)
+    algo = shared["algo"]
     space = Permutations.standard(n)
     maxd = max(max(r) for r in matrix)
     guard = min(400_000, 4 * maxd + 1024)
@@ -604,6 +650,8 @@ def execute(doc: dict) -> dict:
                 process.get_random().shuffle(x0)
                 f0 = process.evaluate(x0)
                 state["cur"], state["cur_len"] = None, None
+                if process.should_terminate():
+                    return  # the warm-up tour already reached the goal
                 left = max(1, int(doc["max_fes"]) - 1)
                 if via == "for_fes":
                     with for_fes(process, left) as sub:
@@ -681,6 +729,9 @@ def _norm_perm(perm: list, n: int) -> list:
 # ------------------------------------------------------------------ shrinking
 
 def reductions(doc: dict):
+    if doc.get("more_runs"):
+        for cand in core.list_deletions(doc["more_runs"], 0):
+            yield {**doc, "more_runs": cand}
     if doc["mode"] == "stub":
         draws = doc["draws"]
         pairs = [draws[k:k + 2] for k in range(0, len(draws) - 1, 2)]
